@@ -6,7 +6,7 @@ def run(tier):
     ck = c01.run_shared("C02", tier)
     ck.assumptions += [
         "same enumeration as C01; every produced stream is handed to the independent reference parser/decoder (ref/ref_xz.c, ref/ref_lzma.c) which validates every stored field against the data: magic, Stream Flags, CRC32s, Block Header sizes and optional size fields, "
-        "filter flags, padding, LZMA2 chunk headers and sizes, declared dictionary (>= largest match distance and == smallest encodable size >= request), Check values, Index records, Backward Size, footer; .lzma header fields; MicroLZMA first byte",
+        "filter flags, padding, LZMA2 chunk headers and sizes, declared dictionary (>= largest match distance; == smallest encodable size >= the request unless the Block is stored as uncompressed chunks), Check values, Index records, Backward Size, footer; .lzma header fields; MicroLZMA first byte",
         "bound guarantee: every n in 0..2048 and around k*65536 (thorough: every n <= 16384, +-64 around every multiple of 65536 up to 4*65536, and every 61st n in between) x {incompressible, zeros, periodic} for lzma_stream_buffer_encode, lzma_easy_buffer_encode, lzma_block_buffer_encode with out_size = *_bound(n)",
         "streams containing BCJ filters are validated by liblzma's decoder only (the BCJ transformation has its own reference in C15)",
     ]
